@@ -17,6 +17,7 @@ import (
 	"runtime"
 	"strings"
 	"sync"
+	"sync/atomic"
 	"time"
 
 	smtp "github.com/emersion/go-smtp"
@@ -151,10 +152,18 @@ func (s *Server) Stop() {
 	if s.BE != nil {
 		s.BE.ReleaseAll()
 	}
-	s.S.Close()
+	// Server.Close may itself be wedged by a defect under test: never wait
+	// for it unboundedly
+	done := make(chan struct{})
+	go func() { s.S.Close(); close(done) }()
+	select {
+	case <-done:
+	case <-time.After(3 * time.Second):
+		return
+	}
 	select {
 	case <-s.ServeErr:
-	case <-time.After(5 * time.Second):
+	case <-time.After(3 * time.Second):
 	}
 }
 
@@ -432,6 +441,13 @@ func (c *Conn) Replies(b []byte) ([]wire.Reply, bool, error) {
 	return rs, eof, nil
 }
 
+var hangs int32
+
+// TooManyHangs tells the engines to stop early: the server under test has
+// been proven to hang several times, every further occurrence costs a full
+// timeout and establishes nothing new.
+func TooManyHangs() bool { return atomic.LoadInt32(&hangs) >= 3 }
+
 // StuckError reports that the server's handler for a connection is blocked
 // inside the library (not waiting for input, not parked at a harness gate)
 // and stayed so for the whole idle timeout: a proven hang, not a slow run.
@@ -489,6 +505,7 @@ func (c *Conn) NotIdleError(ctx string) error {
 				where = where[:j]
 			}
 			IdleTimeout = 3 * time.Second // the server is wedged: do not wait long again
+			atomic.AddInt32(&hangs, 1)
 			return &StuckError{Where: where + " [" + state + "]", Dump: g}
 		}
 	}
